@@ -122,6 +122,7 @@ def run(ctx):
     ctx.tlc("MC_Writer", "run.cfg", extra_files={"run.cfg": cfg}, label="MC_Writer InvAgree", timeout=3000)
     for c in c09.scoping_cases(ctx):
         c09.check_scoping(ctx, c, want_agree=True)
+        c09.check_union_siblings(ctx, c)
         for prefix in ("p", ""):
             text = hb.scoping_doc(c["levels"], prefix)
             # F14 is about values that NEED a declaration xml.etree has dropped; an unprefixed value with no default
